@@ -159,6 +159,7 @@ structure PTask where
   nEC        : Nat                 -- ghost: how often the end callback was entered
   nCC        : Nat                 -- ghost: how often the cancel callback was entered
   wasCancelled : Bool              -- ghost: the coroutine ended by cancellation (`except CancelledError` was taken)
+  nSaw       : Nat                 -- ghost: how many `CancelledError`s the worker has observed
 deriving Repr, Inhabited
 
 structure Item where
